@@ -371,6 +371,12 @@ def standard_flow(ctx, spec):
         return finish(ctx, spec.get("level", "proof"), cov, spec.get("assumptions", []))
     okd, logd = lake_build(["parol_model"])
     aud = audit(spec["mod"], spec.get("allow_axioms", ()))
+    for extra_mod in spec.get("more_mods", ()):
+        a2 = audit(extra_mod, spec.get("allow_axioms", ()))
+        aud["theorems"].update(a2["theorems"])
+        aud["problems"] += a2["problems"]
+        aud["ok"] = aud["ok"] and a2["ok"]
+        aud["build_failed"] = aud["build_failed"] or a2["build_failed"]
     proof_broken = not aud["ok"]
     if not okd:
         aud["problems"].append("driver build failed: " + logd[-2000:])
